@@ -566,6 +566,40 @@ def c06(tier):
 def fuzz_targets(tier):
     return {'counts': {}, 'viol': [], 'samples': [], 'distinct': [], 'incon': []}
 
+from . import consteval_check as cec
+
+@register('C07')
+def c07(tier):
+    ck = Check('C07', tier)
+    q = tier == 'quick'
+    rnd = random.Random(common.seed() * 7001 + 7)
+    gs = []
+    seen = set()
+    def add(g):
+        if g.key() not in seen: seen.add(g.key()); gs.append(g)
+    for g in gg.core_grammars():
+        if ref_lr1.build(g).lr1: add(g)
+    for g in gg.err_core()[:4]: add(g)
+    st = gg.grammar_stream(rnd, want_lr1=0.9)
+    want = 44 if q else 400
+    while len(gs) < want:
+        g, tb = next(st)
+        x = rnd.random()
+        if x < 0.2: g = gg.add_error_rules(g, rnd)
+        elif x < 0.5: g = gg.decorate(g, rnd, vtypes=False, dflt=0, typed=0, strings=0.4)
+        elif x < 0.6: g = gg.with_precedence(g, rnd)
+        if gg.classify(ref_lr1.build(g)) in ('rr', 'acc'): continue
+        if len(ref_lr1.build(g).states) > 40: continue
+        add(g)
+    specs = [{'seed': common.seed() * 19 + i, 'grammars': [g.to_json() for g in c], 'n_inputs': 14 if q else 40} for i, c in enumerate(chunks(gs, 3))]
+    merge(ck, common.pmap(cec.worker, specs))
+    ck.cov['rule'] = ('generated programs with literal-typed grammars (char/string terms, precedence, error rules, contextual functors): each input (accepted, syntactically wrong, lexically wrong; '
+                      'four whitespace option sets) is parsed in a constexpr initializer compiled by g++ and by clang++ (the constant evaluators execute the real parse path and reject undefined '
+                      'behaviour), and at run time through cstring_buffer, string_buffer, string_view_buffer and a user buffer, with the parser object built at compile time and at run time; all 9 results '
+                      'per compiler must be equal (value or empty) and the two construction modes must print identical diagnostics; distinct_nontrivial = distinct (grammar,input,options)')
+    ck.assumptions += ['compilers limited to the installed g++ 12 and clang++ 14', 'results are compared as a checksum of the derivation (rule numbers, term bytes and positions)']
+    return ck.finish(floor_events=300)
+
 def replay(prop, path):
     rep = json.load(open(path))
     print('replay of', path, '- re-running the full check for', prop, 'with seed', rep.get('seed'))
